@@ -656,4 +656,39 @@ def session {α : Type} (dec : Str → Option (Msg α)) (url : Str) (T cap : Nat
       srv := srvDelivered dec (acts.map (·.2)),
       terms := reqs.map (fun (k, _, _) => final.out.filter (fun o => decide (o.key = some k))) }
 
+/-! ## 7. several transports in one process; parameter options -/
+
+/-- one action of the transport number `i` of the process -/
+def applyAt {α : Type} : List (St α) → Nat → Action α → List (St α)
+  | [], _, _ => []
+  | s :: ss, 0, a => step s a :: ss
+  | s :: ss, i + 1, a => s :: applyAt ss i a
+
+/-- any interleaving of the actions of several transports, each tagged with its transport -/
+def runTagged {α : Type} (sts : List (St α)) (acts : List (Nat × Action α)) : List (St α) :=
+  acts.foldl (fun ss p => applyAt ss p.1 p.2) sts
+
+/-- the actions of transport `i` in an interleaving -/
+def projActs {α : Type} (i : Nat) (acts : List (Nat × Action α)) : List (Action α) :=
+  acts.filterMap (fun p => if p.1 = i then some p.2 else none)
+
+/-- the options of `SSEParameters` that default to off / none -/
+structure Options where
+  sessionId : Option Str
+  bearerToken : Option Str
+  headers : Option (List (Str × Str))
+  autoReconnect : Bool
+  maxReconnect : Int
+  reconnectDelay : Int
+  keepAlive : Int
+  sseEndpoint : Str
+  messageBase : Str
+  deriving Repr
+
+/-- a session under given options: the options are not an input of establishment, delivery or
+release (in particular none of them makes an endpoint known before the server announced one) -/
+def sessionWith {α : Type} (_o : Options) (dec : Str → Option (Msg α)) (url : Str) (T cap : Nat) (conn : Conn)
+    (chunks : List (Nat × Str)) (close : Option Nat) (reqs : List (Str × Mode α × List (Msg α))) : SessionObs α :=
+  session dec url T cap conn chunks close reqs
+
 end Verif.Model.SseReq
